@@ -235,7 +235,18 @@ Proof.
   - eexists. reflexivity.
 Qed.
 
-(** with the fault after the second record has started, the first record is an event of the part read *)
-Example ex_prefix_events :
-  length (prefix_events ZNum (ex_log ++ b "2021/01/02" ++ nl ++ b "  fig 3" ++ nl) 45) = 1%nat.
+(** with the fault just after the second heading, the first record is an event of the part read *)
+Definition ex_log2 : bytes := ex_log ++ b "2021/01/02" ++ nl ++ b "  fig 3" ++ nl.
+
+Example ex_prefix_events : length (prefix_events ZNum ex_log2 42) = 1%nat.
+Proof. vm_compute. reflexivity. Qed.
+
+(** A fault in the middle of an entry line: the scanner hands the truncated
+    line "  fi" to the parser before reporting the read error, so the command
+    ends with the parser's "bad syntax" error (case 2 of
+    [run_db_log_log_fault]), not with the read error. *)
+Example ex_truncated_line :
+  out_status (run ZNum (ex_world [(b "food.yaml", FFile ex_book); (b "log.yaml", FFile ex_log2)]
+                                 [(b "log.yaml", 45%nat)]) (ex_inv CReg))
+  = Failed (EParse (b "bad syntax on line 5, ""  fi"".")).
 Proof. vm_compute. reflexivity. Qed.
